@@ -9,6 +9,7 @@ import AffVerif.Judge.C15
 import AffVerif.Judge.C14
 import AffVerif.Judge.C09
 import AffVerif.Judge.C18
+import AffVerif.Judge.C19
 /-! The judge: reads one case per line on stdin, prints one verdict per line. -/
 open AV AV.Judge
 
@@ -21,6 +22,7 @@ def judgeLine (line : String) : String :=
     | "C16" => judgeC16
     | "C12" => judgeC12
     | "C10" => judgeC10
+    | "C19" => judgeC19
     | "C18" => judgeC18
     | "C09" => judgeC09
     | "C14" => judgeC14
